@@ -104,7 +104,9 @@ func runC06(c *Ctx) Result {
 	}
 	pad := func() string {
 		// drive the output size to both sides of the pool limit
-		switch g.d(5) {
+		switch g.d(6) {
+		case 5: // dense in control characters: the quoted form is up to 6x longer, the buffer grows several times inside one string
+			return strings.Repeat("\x01\x02\x1fdata", 1+g.d(24))
 		case 4: // invalid UTF-8 (ValidateString rewrites the output into a second buffer), with HTML to escape
 			return "bad\xff\xfeutf8" + strings.Repeat("<&>", g.d(20)) + strings.Repeat("\xc3", g.d(3))
 		case 0:
@@ -268,6 +270,7 @@ func runC06(c *Ctx) Result {
 			case 3:
 				n.Load()
 				n.Set("zz", ast.NewNumber("1"))
+				n.Set("zs", ast.NewString(pad())) // quoted by the Go-side loop into the pooled ast buffer
 				n.Add(ast.NewNull())
 			}
 			if kind == 5 {
@@ -276,6 +279,18 @@ func runC06(c *Ctx) Result {
 				hist = append(hist, name)
 				if err == nil {
 					keep(name, func() []byte { return b })
+					// the same node encoded with the pools set aside and a roomy buffer: same JSON
+					var ref []byte
+					var rerr error
+					oldSz := option.DefaultAstBufferSize
+					simrt.PoolsAside(func() {
+						option.DefaultAstBufferSize = 1 << 16
+						ref, rerr = n.MarshalJSON()
+						option.DefaultAstBufferSize = oldSz
+					})
+					if rerr != nil || canonText(string(b)) != canonText(string(ref)) {
+						return fail("output-depends-on-pool-state", fmt.Sprintf("Node.MarshalJSON gave %q with the history's pooled buffers (ast buffer size %d), %q (%v) with fresh roomy ones", clip(string(b), 120), oldSz, clip(string(ref), 120), rerr))
+					}
 				}
 			} else {
 				name = "Node.Raw"
